@@ -202,6 +202,21 @@ def run(run):
             y = cls(avg_noise_power=1.0)(xi, noise=ni)
             add({"ev": "Noise", "N": 100, "family": "gaussian", "noise_cdb": 0, "expected_cdb": 99999, "mean_ppm": 99999999, "verbatim": int(torch.equal(y, xi + ni) and torch.equal(y - xi, ni)),
                  "scaling": -1, "shape_ok": tuple(y.shape) == tuple(xi.shape)}, comp, {"channel": comp, "mode": "supplied_noise", "complex": cplx})
+    # supplied noise whose dtype is wider than the input's (real signal + complex noise, float32 signal + float64 noise): still added verbatim
+    for tag, xi, ni in (("real_signal_complex_noise", torch.randint(-50, 50, (4, 257)).float(), torch.complex(torch.randint(-50, 50, (4, 257)).float(), torch.randint(1, 50, (4, 257)).float())),
+                        ("float32_signal_float64_noise", torch.randint(-50, 50, (4, 257)).float(), torch.randint(-50, 50, (4, 257)).double() + 1e-9),
+                        ("complex64_signal_complex128_noise", torch.complex(torch.randint(-5, 5, (3, 64)).float(), torch.randint(-5, 5, (3, 64)).float()),
+                         torch.complex(torch.randint(-5, 5, (3, 64)).double(), torch.randint(-5, 5, (3, 64)).double()) + 1e-9)):
+        for mkc, mode in ((lambda: AWGNChannel(avg_noise_power=1.0), "power"), (lambda: AWGNChannel(snr_db=10.0), "snr")):
+            try:
+                y = mkc()(xi, noise=ni)
+                ref = xi + ni
+                ok = int(y.dtype == ref.dtype and torch.equal(y, ref))
+            except Exception:
+                continue            # a channel may reject mixed dtypes; a silently altered noise counts
+            add({"ev": "Noise", "N": 100, "family": "gaussian", "noise_cdb": 0, "expected_cdb": 99999, "mean_ppm": 99999999, "verbatim": ok, "scaling": -1, "shape_ok": tuple(y.shape) == tuple(xi.shape)},
+                "AWGNChannel", {"channel": "AWGNChannel", "mode": "supplied_noise", "dtypes": tag, "parameterisation": mode})
+            run.case(("verbatim", tag, mode), nontrivial=True)
     for comp, mk in (("AWGNChannel", lambda P: AWGNChannel(avg_noise_power=P)), ("LaplacianChannel", lambda P: LaplacianChannel(avg_noise_power=P))):
         for cplx in (False, True):
             for P in (0.3, 7.0):
